@@ -240,6 +240,10 @@ impl TypedProp for C04 {
             return Verdict::discard("pending>=32");
         }
         if let Some(why) = run.out_of_domain {
+            // the 64-entry state vector (capacity, known finding F31) is outside the model
+            if why == "state-vector-capacity" {
+                return Verdict::discard(why);
+            }
             return Verdict::failed("harness:model-out-of-domain", why);
         }
         let nontrivial = run.layer_active_on_event || run.trans_depth >= 2;
